@@ -1,6 +1,6 @@
 (* C16, the bound: for every position satisfying the invariant with at most 16 men a side, the static evaluation stays strictly
    inside the range below the mate scores: |evaluate g| < MATE_BOUND.  (One king each: the two king values cancel; every other man
-   contributes at most 1100 in magnitude: tables by evaluation over the 64 squares, mobility and pawn-structure counts by 0..64.) *)
+   contributes at most 1100 in magnitude (with room for retuned tables: entries within +-200): tables by evaluation over the 64 squares, mobility and pawn-structure counts by 0..64.) *)
 From Coq Require Import NArith ZArith List Bool Lia Permutation.
 From JV Require Import Gen.Consts Spec.Rays Model.Bits Model.Chess Model.Eval Model.SearchChess Model.Sym Proofs.BitboardProofs Proofs.KeyProofs Proofs.GenProofs Proofs.ConsProofs
   Proofs.KingsProofs Proofs.RangeProofs Proofs.AttackSym Proofs.AbsBase Proofs.LegalInv Proofs.CountProofs Proofs.EvalProofs.
@@ -51,7 +51,7 @@ Proof. intros F. pose proof (all64 _ leapers_check f F) as X. apply andb_true_if
 (* ---- the tables ---- *)
 Definition tab_ok (sq : N) : bool :=
   let m := nthN MIRRORED sq in
-  let inr (v : Z) := (-15 <=? v) && (v <=? 90) in
+  let inr (v : Z) := (-200 <=? v) && (v <=? 200) in
   inr (nthZ PAWN_SCORES sq) && inr (nthZ KNIGHT_SCORES sq) && inr (nthZ BISHOP_SCORES sq) && inr (nthZ ROOK_SCORES sq) && inr (nthZ KING_SCORES sq) &&
   inr (nthZ PAWN_SCORES m) && inr (nthZ KNIGHT_SCORES m) && inr (nthZ BISHOP_SCORES m) && inr (nthZ ROOK_SCORES m) && inr (nthZ KING_SCORES m) &&
   (0 <=? nthZ PASSED_WHITE_PAWN_BONUS (nthN LOOKUP_RANK sq)) && (nthZ PASSED_WHITE_PAWN_BONUS (nthN LOOKUP_RANK sq) <=? 200) &&
@@ -78,7 +78,7 @@ Ltac split_tab X :=
 
 Theorem piece_bound p : (p < 12)%N ->
   (p <> 5%N -> p <> 11%N -> -1100 <= eval_piece g p sq <= 1100) /\
-  (p = 5%N -> 9500 <= eval_piece g p sq <= 10500) /\ (p = 11%N -> -10500 <= eval_piece g p sq <= -9500).
+  (p = 5%N -> 9400 <= eval_piece g p sq <= 10600) /\ (p = 11%N -> -10600 <= eval_piece g p sq <= -9400).
 Proof.
   intros P.
   pose proof (all64 _ tab_check sq SQ) as TB. unfold tab_ok in TB. cbn zeta in TB. split_tab TB.
@@ -136,20 +136,20 @@ Proof.
   apply (sum_bound (eval_piece g p) (bits_of (bb g p)) 1100). intros sq H. apply bits_of_spec in H.
   pose proof (r_sq g R p sq P H) as SQ. destruct (piece_bound g sq R SQ p P) as (B & _). apply B; assumption.
 Qed.
-Lemma S_wk : 9500 <= S 5 <= 10500 /\ cq (bbs g) 5 = 1%nat.
+Lemma S_wk : 9400 <= S 5 <= 10600 /\ cq (bbs g) 5 = 1%nat.
 Proof.
   destruct KG as (KW & _). destruct (single_bits _ KW) as (k & E & T). unfold S, cq, cnt. change (bb g 5) with (bb g WK). change (nthN (bbs g) 5) with (bb g WK).
   rewrite E. cbn [map sumZ fold_right length]. split; [|reflexivity].
   pose proof (r_sq g R WK k ltac:(reflexivity) T) as SQ. destruct (piece_bound g k R SQ 5 ltac:(reflexivity)) as (_ & B & _). specialize (B eq_refl). lia.
 Qed.
-Lemma S_bk : -10500 <= S 11 <= -9500 /\ cq (bbs g) 11 = 1%nat.
+Lemma S_bk : -10600 <= S 11 <= -9400 /\ cq (bbs g) 11 = 1%nat.
 Proof.
   destruct KG as (_ & KB). destruct (single_bits _ KB) as (k & E & T). unfold S, cq, cnt. change (bb g 11) with (bb g BK). change (nthN (bbs g) 11) with (bb g BK).
   rewrite E. cbn [map sumZ fold_right length]. split; [|reflexivity].
   pose proof (r_sq g R BK k ltac:(reflexivity) T) as SQ. destruct (piece_bound g k R SQ 11 ltac:(reflexivity)) as (_ & _ & B). specialize (B eq_refl). lia.
 Qed.
 
-Theorem evaluate_white_bound : Z.abs (evaluate_white g) <= 34000.
+Theorem evaluate_white_bound : Z.abs (evaluate_white g) <= 34200.
 Proof.
   rewrite evaluate_white_sum. destruct M as (MW & MB). unfold menW, menB in MW, MB.
   destruct S_wk as (K1 & K2). destruct S_bk as (K3 & K4).
